@@ -31,15 +31,25 @@
      C15_parser_position_shift         the parser commutes with the shift of all positions
      C15_accepted_tokens_wf            the tokens of an accepted text are StreamStart ... StreamEnd, StreamEnd only last
      C15_glued_tokens, C15_text_composition   under hypothesis (i): tokens / events of A "...\n" B from those of A and B
-   Not proved: (i) that the scanner of A "..." B reaches the boundary having delivered tokens(A) - StreamEnd and
-   DocumentEnd (prefix stability of every scalar scanner at a marker line): it is the named hypothesis
-   [ScanShiftDoc.boundary_reached] of C15_text_composition; exercised on the implementation by the concatenation
-   oracle of check_C15. *)
+     C15_prefix_tokens                 PREFIX STABILITY of the scanner at a "..." line (ScanPrefix*.v): for every NUL-free
+                                       text A that ends with a line break, scans to the end and ends outside every flow
+                                       collection, and every B, the scanner of A "...\n" B delivers tokens(A) - StreamEnd
+                                       (up to the span of an EMPTY block scalar that runs into the end of A: a finding),
+                                       then DocumentEnd, and stands in the marker configuration at the line break
+     C15_boundary_reached              hence hypothesis (i) for every such A without such a block scalar
+     C15_text_composition_total        the text-level composition WITHOUT hypothesis (i)
+   Side conditions of the last three (all decidable): [ends_with_break A], [nonul A] (an embedded NUL ends the stream:
+   the recorded C12 finding), [closed_flow A] (the scan of A ends at flow level 0 - implied by acceptance in reality,
+   the link scanner flow level / parser acceptance is not proved), [no_eof_block A] (no token of A is a block scalar
+   of line feeds only with a non-empty span: "|\n" at the end of A has the span [indicator, end] alone and the
+   empty span [end, end] before a "..." line - same text, different span: see Example eof_block_span_differs). *)
 From Coq Require Import List NArith ZArith Bool.
 Import ListNotations.
 Require Import Parser Grammar SBase SPrim SDir SScalar SFetch Pipe C02run.
 Require Import DocReset DocRun DocShift DocSim DocIndep DocIndepRun ScanFrame DocScan.
 Require Import ScanShift ScanShiftTop ScanShiftParse ScanShiftDoc.
+Require ScanPrefix ScanPrefixTop.
+Require Import ScanPrefixDoc.
 
 (* ------------------------------------------------------------------------------------------------ *)
 (* parser                                                                                            *)
@@ -295,6 +305,39 @@ Theorem C15_text_composition : forall (A B : list N) (evA evB : list (event * sp
 Proof. exact text_composition. Qed.
 Print Assumptions C15_text_composition.
 
+(* PREFIX STABILITY of the scanner at a document-end marker line (ScanPrefix.v ... ScanPrefixTop.v, ScanPrefixDoc.v):
+   a relational proof "scan of A (end of input)" against "scan of A ++ "...\n" ++ B" over every scanner function.
+   [ScanPrefix.TS B t1 t2]: t2 = t1, or t1 / t2 are the same block scalar of line feeds only with the spans
+   [indicator, end] / [end, end]. *)
+Theorem C15_prefix_tokens : forall A B : list N,
+  ends_with_break A -> nonul A -> snd (str_scan A) = SEnded -> closed_flow A ->
+  exists k spd (sm : sc strin) l2,
+    deliver (str_F (glue_text A B)) k (init_sc {| si_chars := glue_text A B; si_look := 0 |})
+      = Some (l2 ++ [(spd, TDocumentEnd)], sm)
+    /\ Forall2 (ScanPrefix.TS B) (removelast (fst (str_scan A))) l2
+    /\ (k <= 4 * str_F (glue_text A B) + 20)%nat
+    /\ marker_config sm /\ is_break (nth 0 (si_chars (sc_in sm)) 0) = true
+    /\ sc_tokens sm = [] /\ sc_token_available sm = false /\ sc_stream_end sm = false /\ (1 <= sc_tokens_parsed sm)
+    /\ boundary_text sm = B.
+Proof. exact prefix_tokens. Qed.
+Print Assumptions C15_prefix_tokens.
+
+(* hypothesis (i), discharged *)
+Theorem C15_boundary_reached : forall A B : list N,
+  ends_with_break A -> nonul A -> snd (str_scan A) = SEnded -> closed_flow A -> no_eof_block A -> boundary_reached A B.
+Proof. exact boundary_reached_total. Qed.
+Print Assumptions C15_boundary_reached.
+
+Theorem C15_text_composition_total : forall (A B : list N) (evA evB : list (event * span)),
+  ends_with_break A -> nonul A -> closed_flow A -> no_eof_block A ->
+  run_str A = (evA, PDone) -> run_str B = (evB, PDone) ->
+  exists evC, run_str (glue_text A B) = (evC, PDone)
+    /\ DocRun.evs_of evC
+       = removelast (DocRun.evs_of evA)
+         ++ map (shift_ev (count_anchored (DocRun.evs_of evA))) (tl (DocRun.evs_of evB)).
+Proof. exact text_composition_total. Qed.
+Print Assumptions C15_text_composition_total.
+
 (* ------------------------------------------------------------------------------------------------ *)
 (* examples: the hypotheses are satisfiable, the statements are not trivially true                    *)
 (* ------------------------------------------------------------------------------------------------ *)
@@ -452,3 +495,41 @@ Proof.
   destruct (C15_text_composition ex_A ex_B evA evB HA HB ex_boundary_reached) as (evC & HC & EV).
   rewrite ex_text_is_glued in HC. exists evA, evB, evC. auto.
 Qed.
+
+(* ------------------------------------------------------------------------------------------------ *)
+(* prefix stability: the side conditions hold for "{x}\n"; the composition without hypothesis (i);    *)
+(* the two excluded classes are not empty                                                            *)
+(* ------------------------------------------------------------------------------------------------ *)
+Example ex_A_side_conditions : ends_with_break ex_A /\ nonul ex_A /\ closed_flow ex_A /\ no_eof_block ex_A.
+Proof.
+  split; [right; reflexivity|]. split; [repeat constructor; discriminate|]. split; vm_compute; reflexivity.
+Qed.
+Example text_composition_total_applied :
+  exists evA evB evC, run_str ex_A = (evA, PDone) /\ run_str ex_B = (evB, PDone) /\ run_str ex_text = (evC, PDone)
+    /\ C02run.evs_of evC = removelast (C02run.evs_of evA) ++ map (shift_ev (count_anchored (C02run.evs_of evA))) (tl (C02run.evs_of evB)).
+Proof.
+  assert (HA : exists evA, run_str ex_A = (evA, PDone)) by (eexists; vm_compute; reflexivity).
+  assert (HB : exists evB, run_str ex_B = (evB, PDone)) by (eexists; vm_compute; reflexivity).
+  destruct HA as [evA HA], HB as [evB HB].
+  destruct ex_A_side_conditions as (C1 & C2 & C3 & C4).
+  destruct (C15_text_composition_total ex_A ex_B evA evB C1 C2 C3 C4 HA HB) as (evC & HC & EV).
+  rewrite ex_text_is_glued in HC. exists evA, evB, evC. auto.
+Qed.
+(* the finding behind [no_eof_block]: the empty block scalar "|\n" has the span 0:1:0-2:2:0 at the end of input and
+   2:2:0-2:2:0 before a "..." line (same on the implementation: hx tokens on "124 10" / "124 10 46 46 46 10") *)
+Example eof_block_span_differs :
+  nth 1 (fst (str_scan [124;10])) (span_empty mk0, TStreamEnd)
+    = ({| sp_start := {| m_index := 0; m_line := 1; m_col := 0 |}; sp_end := {| m_index := 2; m_line := 2; m_col := 0 |} |},
+       TScalar Literal [])
+  /\ nth 1 (fst (str_scan (glue_text [124;10] []))) (span_empty mk0, TStreamEnd)
+    = ({| sp_start := {| m_index := 2; m_line := 2; m_col := 0 |}; sp_end := {| m_index := 2; m_line := 2; m_col := 0 |} |},
+       TScalar Literal [])
+  /\ forallb ok_tok (fst (str_scan [124;10])) = false.
+Proof. repeat split; vm_compute; reflexivity. Qed.
+(* [closed_flow] is a real condition of the SCANNER-level statement: "[a\n" scans to the end, but inside a flow
+   collection the "..." line is not a document boundary (such a text is rejected by the parser) *)
+Example open_flow_not_closed :
+  snd (str_scan [91;97;10]) = SEnded
+  /\ sc_flow_level (ScanPrefixTop.scan_last (str_F [91;97;10]) (4 * str_F [91;97;10] + 20)
+                     (init_sc {| si_chars := [91;97;10]; si_look := 0 |})) = 1.
+Proof. split; vm_compute; reflexivity. Qed.
